@@ -17,7 +17,9 @@ import (
 	"strconv"
 	"strings"
 	"sync"
+	"sync/atomic"
 	"testing"
+	"time"
 
 	"pgregory.net/rapid"
 )
@@ -55,6 +57,9 @@ type violation struct {
 	Key     string `json:"key"`
 	Message string `json:"message"`
 	Case    any    `json:"case,omitempty"`
+	// first record of this (test,key) in the process: found with the full liveness bounds, before shrinking
+	FirstMessage string `json:"first_message,omitempty"`
+	FirstCase    any    `json:"first_case,omitempty"`
 }
 
 var (
@@ -260,7 +265,30 @@ func ViolationNoFail(t TB, id, key string, kase any, format string, args ...any)
 	record(t, id, key, kase, msg)
 }
 
+// Bound scales a "must happen within d" liveness bound. Until the first violation
+// of the process the full bound applies, so detection never depends on a short
+// timeout; once a violation has been recorded rapid is shrinking, and its block
+// minimiser does not look at the shrink deadline between attempts, so every
+// further attempt that hangs would cost the full bound again. From then on a fifth
+// of the bound (at least 2 s) is used; the first, full-bound record is kept beside
+// the shrunk one in the evidence.
+func Bound(d time.Duration) time.Duration {
+	if !hadViolation.Load() {
+		return d
+	}
+	if s := d / 5; s > 2*time.Second {
+		return s
+	}
+	if d < 2*time.Second {
+		return d
+	}
+	return 2 * time.Second
+}
+
+var hadViolation atomic.Bool
+
 func record(t TB, id, key string, kase any, msg string) {
+	hadViolation.Store(true)
 	name := ""
 	if n, ok := t.(interface{ Name() string }); ok {
 		name = n.Name()
@@ -274,7 +302,11 @@ func record(t TB, id, key string, kase any, msg string) {
 	replaced := false
 	for i := range p.Violations {
 		if p.Violations[i].Test == name && p.Violations[i].Key == key {
-			p.Violations[i] = violation{Test: name, Key: key, Message: msg, Case: kase}
+			first, firstCase := p.Violations[i].FirstMessage, p.Violations[i].FirstCase
+			if first == "" {
+				first, firstCase = p.Violations[i].Message, p.Violations[i].Case
+			}
+			p.Violations[i] = violation{Test: name, Key: key, Message: msg, Case: kase, FirstMessage: first, FirstCase: firstCase}
 			replaced = true
 		}
 	}
